@@ -1175,20 +1175,22 @@ func loadParamBytes(input []byte, index int) ([]byte, error) {
 		return nil, errors.New("invalid offset")
 	}
 
-	start := dataOffset + 32
-	if start > uint64(len(input)) {
+	// all comparisons are written so that they cannot wrap around
+	inputLen := uint64(len(input))
+	if dataOffset > inputLen || inputLen-dataOffset < 32 {
 		return nil, errors.New("invalid param length")
 	}
+	start := dataOffset + 32
 
 	dataLen, overflow := uint256.NewInt(0).SetBytes32(input[dataOffset:start]).Uint64WithOverflow()
 	if overflow {
 		return nil, errors.New("invalid length")
 	}
 
-	end := start + dataLen
-	if end > uint64(len(input)) {
+	if dataLen > inputLen-start {
 		return nil, errors.New("invalid param length")
 	}
+	end := start + dataLen
 
 	return input[start:end], nil
 }
